@@ -363,7 +363,7 @@ func LoadMined() {
 	// or are not UTF-8
 	var novel []string
 	for _, s := range f.ConstStrings {
-		if !pinnedS[s] && len(s) >= 1 && len(s) <= 16 && utf8.ValidString(s) && !strings.ContainsAny(s, "\n\t%") && len(novel) < 8 {
+		if !pinnedS[s] && len(s) >= 1 && len(s) <= 16 && utf8.ValidString(s) && !strings.ContainsAny(s, " %\n\t:") && len(novel) < 8 {
 			novel = append(novel, s)
 		}
 	}
